@@ -6,7 +6,9 @@ EXTENDS Alerts, Json
 CONSTANTS MaxTime, Pick(_), KnownGaps,
           Variants,              \* label-set ids that are posted
           Variants2,             \* label-set ids of the second alert of Post2
-          StartOffs, EndOffs,    \* explicit startsAt / endsAt = now + offset - 2 (cfg files have no negative numbers)
+          StartOffs, EndOffs,    \* offset 0: the field is missing; o >= 1: explicit startsAt / endsAt = now + o - 3
+                                 \* (cfg files have no negative numbers)
+          FixedStart,            \* >= 0: every submission carries this startsAt (limit configurations); -1: see StartOffs
           MaxBatch, Ops,
           SameInstant            \* TRUE: two submissions of one label set at one instant are allowed
 PickAll(S) == S
@@ -38,8 +40,9 @@ MCCanonF4  == {"F1", "F2", "F3", "F4"}
 MCCanonFx  == {"F1", "F2", "F3", "F4", "F5", "G1", "G2", "H1"}
 
 Times     == 0 .. (MaxTime + 6)
-Starts(t) == {Unset} \cup ({t + o - 2 : o \in StartOffs} \cap Times)
-Ends(t)   == {Unset} \cup ({t + o - 2 : o \in EndOffs} \cap Times)
+Offs(t, O) == (IF 0 \in O THEN {Unset} ELSE {}) \cup ({t + o - 3 : o \in O \ {0}} \cap Times)
+Starts(t)  == IF FixedStart >= 0 THEN {FixedStart} ELSE Offs(t, StartOffs)
+Ends(t)    == Offs(t, EndOffs)
 P(ls, s, e) == [ls |-> ls, s |-> s, e |-> e]
 
 \* No two submissions of one label set at one instant (a nanosecond clock never does
